@@ -37,9 +37,16 @@ struct WorldG : IWorld
         asparse = (w.variant & 1) != 0;
         bsparse = (w.variant & 2) != 0;
         if (w.family == F_GREGINV) bsparse = true;  // SparseRegularInverse is the only wrapper for this mode
+        // every wrapper of one matrix references the SAME triangle (variant bit 16: Upper for the first matrix, bit 32:
+        // Upper for the second); the other triangle of what the wrappers are given is scribbled (family_impl.h)
+        upperA = (w.variant & 16) != 0;
+        upperB = (w.variant & 32) != 0;
+        Ad = one_triangle_storage<S>(Ad, upperA, triangle_mode(w, 0));
+        Bd = one_triangle_storage<S>(Bd, upperB, triangle_mode(w, 1));
         if (asparse) As = to_sparse(Ad);
         if (bsparse) Bs = to_sparse(Bd);
     }
+    bool upperA = false, upperB = false;
     void probe(std::vector<unsigned char>& out) override
     {
         probe_inner(boxA.inner.get(), out);
@@ -49,13 +56,23 @@ struct WorldG : IWorld
     {
         apply_inner_impl<S>(target == 0 ? boxA.inner.get() : boxB.inner.get(), method, x, y);
     }
-    void product_A()
+    // product wrapper for a symmetric matrix, referencing the triangle chosen for that matrix
+    void product(OpBox<S>& box, SeamCtl* ctl, bool sparse, bool upper, const Mat& Md, const SpMat& Ms)
     {
-        if (!asparse) boxA.template emplace<Spectra::DenseSymMatProd<S>>(&ctlA, Ad);
-        else boxA.template emplace<Spectra::SparseSymMatProd<S>>(&ctlA, As);
+        if (!sparse)
+        {
+            if (!upper) box.template emplace<Spectra::DenseSymMatProd<S>>(ctl, Md);
+            else box.template emplace<Spectra::DenseSymMatProd<S, Eigen::Upper>>(ctl, Md);
+        }
+        else
+        {
+            if (!upper) box.template emplace<Spectra::SparseSymMatProd<S>>(ctl, Ms);
+            else box.template emplace<Spectra::SparseSymMatProd<S, Eigen::Upper>>(ctl, Ms);
+        }
     }
+    void product_A() { product(boxA, &ctlA, asparse, upperA, Ad, As); }
     // the shift-and-invert operator on the pencil (first, second); variant bits 16 / 32 select the Upper triangle
-    // of the first / second matrix (full symmetric matrices are passed, so both options read the same values)
+    // of the first / second matrix
     template <int UA, int UB>
     void shift_invert_uplo(bool first_sparse, bool second_sparse, const Mat& Fd, const SpMat& Fs, const Mat& Gd, const SpMat& Gs)
     {
@@ -81,8 +98,16 @@ struct WorldGChol : WorldG<S>
     explicit WorldGChol(const WorldSpec& w) : WorldG<S>(w)
     {
         this->product_A();
-        if (!this->bsparse) this->boxB.template emplace<Spectra::DenseCholesky<S>>(&this->ctlB, this->Bd);
-        else this->boxB.template emplace<Spectra::SparseCholesky<S>>(&this->ctlB, this->Bs);
+        if (!this->bsparse)
+        {
+            if (!this->upperB) this->boxB.template emplace<Spectra::DenseCholesky<S>>(&this->ctlB, this->Bd);
+            else this->boxB.template emplace<Spectra::DenseCholesky<S, Eigen::Upper>>(&this->ctlB, this->Bd);
+        }
+        else
+        {
+            if (!this->upperB) this->boxB.template emplace<Spectra::SparseCholesky<S>>(&this->ctlB, this->Bs);
+            else this->boxB.template emplace<Spectra::SparseCholesky<S, Eigen::Upper>>(&this->ctlB, this->Bs);
+        }
     }
     std::unique_ptr<ISolver> make_solver() override
     {
@@ -105,7 +130,8 @@ struct WorldGRegInv : WorldG<S>
     explicit WorldGRegInv(const WorldSpec& w) : WorldG<S>(w)
     {
         this->product_A();
-        this->boxB.template emplace<Spectra::SparseRegularInverse<S>>(&this->ctlB, this->Bs);
+        if (!this->upperB) this->boxB.template emplace<Spectra::SparseRegularInverse<S>>(&this->ctlB, this->Bs);
+        else this->boxB.template emplace<Spectra::SparseRegularInverse<S, Eigen::Upper>>(&this->ctlB, this->Bs);
     }
     std::unique_ptr<ISolver> make_solver() override
     {
@@ -122,21 +148,13 @@ struct WorldGShift : WorldG<S>
         // op = inv(A - sigma B); B-operator = product with the SPD matrix of the pencil
         // (B for shift-invert and Cayley, K = A for buckling)
         this->shift_invert_A(this->asparse, this->bsparse, this->Ad, this->As, this->Bd, this->Bs);
-        if (Mode == Spectra::GEigsMode::Buckling)
-        {
-            if (!this->asparse) this->boxB.template emplace<Spectra::DenseSymMatProd<S>>(&this->ctlB, this->Ad);
-            else this->boxB.template emplace<Spectra::SparseSymMatProd<S>>(&this->ctlB, this->As);
-        }
-        else
-        {
-            if (!this->bsparse) this->boxB.template emplace<Spectra::DenseSymMatProd<S>>(&this->ctlB, this->Bd);
-            else this->boxB.template emplace<Spectra::SparseSymMatProd<S>>(&this->ctlB, this->Bs);
-        }
+        if (Mode == Spectra::GEigsMode::Buckling) this->product(this->boxB, &this->ctlB, this->asparse, this->upperA, this->Ad, this->As);
+        else this->product(this->boxB, &this->ctlB, this->bsparse, this->upperB, this->Bd, this->Bs);
     }
     std::unique_ptr<ISolver> make_solver() override
     {
         typedef Spectra::SymGEigsShiftSolver<SimOp<S>, SimOp<S>, Mode> Solver;
-        return std::unique_ptr<ISolver>(new SolverAdaptor<Solver, S>(*this->boxA.op, *this->boxB.op, (Eigen::Index) this->spec.nev, (Eigen::Index) this->spec.ncv, (S) this->spec.sigma));
+        return std::unique_ptr<ISolver>(new SolverAdaptor<Solver, S>(typename SolverAdaptor<Solver, S>::Shift1(), (S) this->spec.sigma, *this->boxA.op, *this->boxB.op, (Eigen::Index) this->spec.nev, (Eigen::Index) this->spec.ncv));
     }
 };
 
